@@ -140,7 +140,7 @@ def genDims : G (Nat × Nat) := do
 
 /-- header for a picture of kind `pt` (0 I, 1 P, 2 disposable P) with dimensions fixed by `dims` when the
 flavour can express them (Sorenson: any; PLUSPTYPE: multiples of 4; baseline: sub-QCIF only) -/
-def genHdr (cfg : Cfg) (pt : Nat) (dims : Nat × Nat) (tr quant : Nat) : G HdrD := do
+def genHdr (cfg : Cfg) (pt : Nat) (dims : Nat × Nat) (tr quant : Nat) (plain : Bool := false) : G HdrD := do
   let extra ← genExtra
   match cfg.flavour with
   | 0 | 1 =>
@@ -162,7 +162,9 @@ def genHdr (cfg : Cfg) (pt : Nat) (dims : Nat × Nat) (tr quant : Nat) : G HdrD 
     -- an I picture without a format (rejected), modified quantization (unimplemented) or UMV (the other MVD code);
     -- the modes the decoder parses and ignores are switched on at random
     let inh ← coin 1 2
-    let odd ← below 24
+    let odd0 ← below 24
+    -- `plain`: only pictures that are valid in the macroblock syntax the encoder writes (no MQ, no PLUSPTYPE UMV, format present)
+    let odd := if plain then odd0 + 3 else odd0
     let m ← below 256
     let pcf ← coin 1 4
     let etr ← below 4
@@ -186,7 +188,7 @@ def realDims (cfg : Cfg) (dims : Nat × Nat) : Nat × Nat :=
 
 def genPic (cfg : Cfg) (pt : Nat) (dims : Nat × Nat) (tr : Nat) (complete : Bool := false) : G PicD := do
   let quant ← (do let c ← below 6; if c = 0 then pick [1, 2, 30, 31] else range 1 31)
-  let hdr ← genHdr cfg pt dims tr quant
+  let hdr ← genHdr cfg pt dims tr quant complete
   let (w, h) := hdr.dims
   let total := ((w + 15) / 16) * ((h + 15) / 16)
   let trunc ← below 12
